@@ -16,7 +16,7 @@ PROP = "C15"
 IMPORTS = "From JV Require Import Lib.Base Lib.C15Val Model.C15Links Spec.C15Spec Corr.C15Judge."
 RULE = ("seeded random parsers: 3-7 declarations (int/str/List[int]/Any arguments, dotted groups, class-typed "
         "arguments, lists of classes) with 1-4 link_arguments calls (single/multiple sources, group-valued and "
-        "class-valued sources, 9 compute functions, the three target kinds; ~30% of the link sets contain a chain, "
+        "class-valued sources, 10 compute functions, the three target kinds; ~30% of the link sets contain a chain, "
         "double target, missing key, prefix overlap or self link), each with 4 inputs through defaults/env/--cfg/"
         "options/parse_object, ~35% of them supplying a value for a target (option, config, object, env, enclosing "
         "group or class spec). Non-trivial = at least one link accepted and the pre-link configuration reached; "
@@ -28,12 +28,16 @@ RULE = ("seeded random parsers: 3-7 declarations (int/str/List[int]/Any argument
         "short -K) and are then given through it half of the time, sources and link targets alike; a whole class spec on argv "
         "is handed over in its own config file 70% of the time (the parse keeps __path__). Every successful parse is also "
         "saved with save() in its default multifile mode and EVERY file written is read back (nested files are put back in "
-        "place of the reference the main file holds).")
+        "place of the reference the main file holds). HISTORIES: every flat case parses a SECOND input on the same parser "
+        "object, after the first parse, after the lists the first parse put at link targets were edited in place, and after "
+        "dump / re-parse / save; the second input is the first with values of Any-typed arguments replaced by values of "
+        "another kind that compare and hash equal (1 <-> True, 0 <-> False); 10 compute functions, among them the "
+        "type-sensitive `kind` (joins the type names of its arguments) and the list-returning tup / pair / cat.")
 TRUSTED = [
     "Coq 8.16.1 kernel + vm_compute",
     "tie/impl/c15_links.py: observation of the real parser (wraps ActionLink.apply_parsing_links in the harness "
     "process to read the pre-link configuration), canonicalisation, the generated module c15mod",
-    "the 9 compute functions exist twice: Python (c15_links.py FUNCTIONS_SRC) and Gallina (C15Judge.fn_interp); "
+    "the 10 compute functions exist twice: Python (c15_links.py FUNCTIONS_SRC) and Gallina (C15Judge.fn_interp); "
     "their agreement is exercised by every case, the theorems quantify over ALL functions",
     "hand-written model coq/Model/C15Links.v, tied by per-case agreement evaluated inside Coq",
     "probe_fixes (tie/props/c15.py): the two refutation witnesses are run on the implementation to select the model "
@@ -50,6 +54,11 @@ ASSUMPTIONS = [
     "save(multifile=True) is modelled as the same function as dump (strip_link_target_keys on the whole configuration): "
     "which part of it goes to which file is C18's subject; here the main file with every nested file put back must equal "
     "the model's dump, and a written file that the main file does not refer to is an observation error",
+    "the model's parse is a FUNCTION of (declarations, link calls, input): nothing a parser object did before can "
+    "influence a parse — stated nowhere as a theorem because it is how the model is built; the tie checks it on two-parse "
+    "histories (second parse, plus the re-parse of the dump) on one parser object",
+    "Python booleans are encoded as the reserved strings <true> / <false> (Any-typed arguments only); floats are not in "
+    "the value space",
     "an argument has at most two option strings; the model identifies an option by the dest and whether the first or "
     "the second spelling was used",
     "values are finite trees without sharing: link sets WITH key overlaps never hand a group/class Namespace through by "
@@ -137,7 +146,7 @@ CLASSES = {
     "Req": [["p", "int", REQ], ["q", "int", 5]],
     "Lst": [["p", "int", 3], ["l", "list", [7]]],
 }
-FN = {"add": 0, "cat": 1, "tup": 2, "first": 3, "word": 4, "boom": 5, "gsum": 6, "inc": 7, "pair": 8}
+FN = {"add": 0, "cat": 1, "tup": 2, "first": 3, "word": 4, "boom": 5, "gsum": 6, "inc": 7, "pair": 8, "kind": 9}
 WORDS = ["ab", "cd", "xyz", "q", "foo"]
 
 
@@ -149,7 +158,7 @@ def rand_val(rng, ty):
         return rng.choice(WORDS)
     if ty == "list":
         return [rng.randint(0, 9) for _ in range(rng.randint(0, 3))]
-    return rng.choice([rng.randint(0, 9), rng.choice(WORDS), [rng.randint(0, 5)]])
+    return rng.choice([rng.randint(0, 9), rng.choice([0, 1]), rng.choice([True, False]), rng.choice(WORDS), [rng.randint(0, 5)]])
 
 
 def bad_val(rng, ty):
@@ -245,7 +254,9 @@ def pick_fn(rng, src_types, tgt_type):
             return rng.choice([FN["tup"], FN["pair"] if n == 1 else FN["tup"]])
         return rng.choice([FN["tup"], FN["cat"]])
     if tgt_type == "str":
-        return rng.choice([FN["word"], None if n == 1 and src_types[0] == "str" else FN["word"], FN["first"]])
+        return rng.choice([FN["word"], None if n == 1 and src_types[0] == "str" else FN["word"], FN["first"], FN["kind"], FN["kind"]])
+    if tgt_type == "any" and rng.random() < 0.3:
+        return FN["kind"]
     return rng.choice([None if n == 1 else FN["tup"], FN["tup"], FN["first"], FN["add"], FN["gsum"] if src_types == ["map"] else FN["first"]])
 
 
@@ -477,6 +488,28 @@ def flat(m, pre=""):
     return out
 
 
+def second_input(rng, decls, x):
+    """the input of the SECOND parse on the same parser object: the first input with some values of Any-typed arguments
+    replaced by a value of another kind that compares (and hashes) equal: 1 <-> True, 0 <-> False"""
+    anyk = {d["key"] for d in decls if d["kind"] == "any"}
+    swap = {0: False, 1: True}
+
+    def sw(k, v):
+        if k in anyk and type(v) is int and v in swap and rng.random() < 0.8:
+            return swap[v]
+        if k in anyk and type(v) is bool and rng.random() < 0.8:
+            return int(v)
+        return v
+
+    def sw_map(m, pre=""):
+        return {k: (sw_map(v, pre + k + ".") if isinstance(v, dict) and "class_path" not in v else sw(pre + k, v)) for k, v in m.items()}
+
+    y = copy.deepcopy(x)
+    y["argv"] = [[it[0], it[1], sw(it[1], it[2])] + it[3:] if it[0] == "opt" else ["cfg", sw_map(it[1])] for it in y["argv"]]
+    y["obj"] = sw_map(y["obj"])
+    return y
+
+
 def generate(rng, tier):
     cases = []
     nparsers = 330 if tier == "quick" else 5000
@@ -488,6 +521,7 @@ def generate(rng, tier):
         for _ in range(4):
             x = gen_input(rng, decls, links, family)
             case = dict(decls=decls, links=links, aspect=0, full=(family == "A"), **x)
+            case["second"] = second_input(rng, decls, x)
             cases.append(case)
             if has_list_target and family == "B":
                 cases.append(dict(case, aspect=1))
@@ -556,7 +590,7 @@ def observe(cases):
 # cases file and referenced by name in the case terms: a 400-case shard then needs ~4x less memory and time in coqc than
 # with every string spelled out as a list of code points.
 _POOL_STRINGS = (["a", "b", "t", "u", "w", "g", "h", "x", "y", "z", "c", "d", "cs", "p", "q", "r", "l", "nope",
-                  "init_args", "class_path", "zz", "<bool>", "<other>", "subcommand"] + SUBCOMMANDS_ + WORDS + ["c15mod." + n for n in CLASSES])
+                  "init_args", "class_path", "zz", "<true>", "<false>", "<other>", "subcommand"] + SUBCOMMANDS_ + WORDS + ["c15mod." + n for n in CLASSES])
 _POOL = {}
 for _i, _s in enumerate(dict.fromkeys(_POOL_STRINGS)):
     _POOL[_s] = "c15s%d" % _i
@@ -574,7 +608,7 @@ def g_val(v):
     if v is None:
         return "VNone"
     if isinstance(v, bool):
-        return "(VStr %s)" % gs("<bool>")
+        return "(VStr %s)" % gs("<true>" if v else "<false>")
     if isinstance(v, int):
         return "(VInt (%d)%%Z)" % v
     if isinstance(v, str):
@@ -582,6 +616,8 @@ def g_val(v):
     if isinstance(v, list):
         return "(VList %s)" % g_list([g_val(x) for x in v], "val")
     if isinstance(v, dict):
+        if "__bool__" in v:
+            return "(VStr %s)" % gs("<true>" if v["__bool__"] else "<false>")
         if "__map__" in v:
             items = v["__map__"]
         elif "__other__" in v:
@@ -628,16 +664,23 @@ def g_item(it):
     return "(%s %s %s)" % ("OptAlias" if len(it) > 3 and it[3] == "alt" else "Opt", g_key(it[1]), g_val(it[2]))
 
 
+def g_input(x):
+    env = g_list([g_pair(g_key(k), g_val(v)) for k, v in x["env"]], "(key * val)")
+    if x["mode"] == "object":
+        return "(InObject %s %s)" % (env, g_val(x["obj"]))
+    return "(InArgs %s %s)" % (env, g_list([g_item(it) for it in x["argv"]], "item"))
+
+
 def term(case, obs):
     links = ["{| l_src := %s; l_tgt := %s; l_fn := %s |}" % (
         g_list([g_key(s) for s in l["src"]], "key"), g_key(l["tgt"]), g_opt(None if l["fn"] is None else g_nat(l["fn"])))
         for l in case["links"]]
-    env = g_list([g_pair(g_key(k), g_val(v)) for k, v in case["env"]], "(key * val)")
-    if case["mode"] == "object":
-        inp = "(InObject %s %s)" % (env, g_val(case["obj"]))
-    else:
-        items = [g_item(it) for it in case["argv"]]
-        inp = "(InArgs %s %s)" % (env, g_list(items, "item"))
+    inp = g_input(case)
+    x2 = case.get("second")
+    p2 = obs.get("parse2")
+    g_second = ("c_input2 := %s; o_pre2 := %s; o_parse2 := %s; " % (
+        g_opt(None if x2 is None else g_input(x2)), g_opt(None if obs.get("pre2") is None else g_val(obs["pre2"])),
+        g_opt(None if x2 is None or p2 is None else g_pres(p2))))
     rp = obs["reparse"]
     sub = case.get("sub")
     if sub is None:
@@ -651,12 +694,12 @@ def term(case, obs):
             gs(sub["name"]), g_list([g_decl(d) for d in sub["decls"]], "decl"), g_list(slinks, "link"), g_list(sitems, "item"),
             g_list([g_N(b) for b in obs.get("sub_build", [])], "N"), g_list([g_key(k) for k in obs.get("sub_required", [])], "key")))
     return ("{| c_classes := %s; c_decls := %s; c_links := %s; c_input := %s; c_full := %s; c_aspect := %s; c_fixed := %s; c_sub := %s; "
-            "o_build := %s; o_required := %s; o_pre := %s; o_parse := %s; o_dump := %s; o_save := %s; o_reparse := %s |}") % (
+            "o_build := %s; o_required := %s; o_pre := %s; o_parse := %s; o_dump := %s; %so_save := %s; o_reparse := %s |}") % (
         _CLASSES_TERM, g_list([g_decl(d) for d in case["decls"]], "decl"), g_list(links, "link"), inp,
         g_bool(case["full"]), g_N(case["aspect"]), g_N(fixed_mask()), g_sub,
         g_list([g_N(b) for b in obs["build"]], "N"), g_list([g_key(k) for k in obs["required"]], "key"),
         g_opt(None if obs["pre"] is None else g_val(obs["pre"])), g_pres(obs["parse"]),
-        g_opt(None if obs["dump"] is None else g_val(obs["dump"])),
+        g_opt(None if obs["dump"] is None else g_val(obs["dump"])), g_second,
         g_opt(None if obs.get("save") is None else g_val(obs["save"])), g_opt(None if rp is None else g_pres(rp)))
 
 
@@ -682,6 +725,8 @@ def category(case, obs):
 
 
 def unc(v):
+    if isinstance(v, dict) and "__bool__" in v:
+        return v["__bool__"]
     if isinstance(v, dict) and "__map__" in v:
         return {k: unc(x) for k, x in v["__map__"]}
     if isinstance(v, list):
@@ -716,7 +761,11 @@ def describe(case, obs):
                      "dump(skip_none=False)": unc(obs["dump"]),
                      "save(multifile=True): main file with the nested files put back": unc(obs.get("save")),
                      "files written by save": obs.get("save_files"), "save_error": obs.get("save_error"),
-                     "reparse_of_dump": [obs["reparse"][0], unc(obs["reparse"][1])] if obs["reparse"] else None},
+                     "reparse_of_dump": [obs["reparse"][0], unc(obs["reparse"][1])] if obs["reparse"] else None,
+                     "SECOND parse on the same parser object (after lists at link targets of the first result were edited in place)":
+                         {"input": None if case.get("second") is None else {k: case["second"][k] for k in ("mode", "env", "argv", "obj")},
+                          "cfg_before_links": unc(obs.get("pre2")),
+                          "parse": [obs["parse2"][0], unc(obs["parse2"][1])] if obs.get("parse2") else None}},
     }
 
 
@@ -789,10 +838,27 @@ META = {
         "subcommands nested deeper than one level, "
         "Namespace->dict conversion by type hint, compute functions with side effects. Trusted: Coq kernel/vm_compute, the "
         "runner tie/impl/c15_links.py (hooks apply_parsing_links in the harness process to read the pre-link configuration), "
-        "the Python/Gallina twins of the 9 tie compute functions."),
+        "the Python/Gallina twins of the 10 tie compute functions."),
     "technique": (
         "Rocq proof: frame lemmas for get/set/pop over an ordered nested map, invariant preserved by induction over the "
         "link_arguments calls (well-formedness, no equal-key chains, marks, required set) and over the applied link list "
         "(links_commute), kernel-evaluated counterexample witnesses; correspondence (seeded generated parsers x inputs, "
         "model agreement and spec agreement evaluated inside Coq by vm_compute)"),
 }
+
+
+def search(rng, tier, broken):
+    """failing-input search after a broken proof / tie: ONE fresh quick-sized batch (bounded: about the cost of a quick
+    run), judged like the main batch; returns the first case that contradicts the spec outside the listed findings"""
+    import sys
+
+    mod = sys.modules[__name__]
+    cases = generate(rng, "quick")
+    obs = observe(cases)
+    bm, bi, bo = framework.judge_cases(mod, cases, obs, tag="x")
+    known = framework.load_known_findings(PROP)
+    bad = sorted(set(bi) | {i for i, k in bo if FINDING_CLASSES.get(k) not in known})
+    if not bad:
+        return None
+    i = bad[0]
+    return {"case": cases[i], "observed": obs[i], "explain": describe(cases[i], obs[i])}
